@@ -51,7 +51,7 @@ def gen_unit(r, i, tier):
     mode = str(r.choice(["plain", "min_step", "max_n_steps", "both"])) if adaptive else "fixed"
     beta = float(r.choice([0.0, 0.0, r.uniform(0, 0.95), 1 - 10 ** r.uniform(-8, -1)]))
     c = {"kind": kind, "n": n, "ll": ll.tolist(), "lp": lp.tolist(), "lq": lq.tolist(), "adaptive": adaptive,
-         "mode": mode, "beta": beta, "tol": float(r.choice([1e-6, 1e-6, 1e-3, 1e-9])),
+         "mode": mode, "beta": beta, "tol": float(r.choice([1e-6, 1e-6, 1e-3, 1e-9, 1e-11])),
          "target": float(r.choice([0.5, 0.1, 0.9, 0.99])), "ramp": bool(r.random() < 0.25),
          "rate": float(r.choice([1.0, 1.0, 0.5, 2.0])), "n_steps": int(r.integers(1, 201)),
          "min_step": float(r.choice([0.01, 0.1, 0.3, 1e-4])), "max_n_steps": int(r.integers(1, 30))}
@@ -246,6 +246,12 @@ def corpus_runs():
     for j, ms in enumerate((0.1, 0.05, 1 / 3, 0.2, 0.7, 0.15, 0.3)):
         out.append({"seed": 100 + j, "n_samples": 12, "dims": 3, "like_width": 0.05, "kernel_steps": 1, "sampler": "minipcn_smc",
                     "min_step": ms, "target_efficiency": 0.95, "mode": "floor_bound"})
+    # a likelihood that is ZERO on part of the prior volume (a hard constraint): the initial population holds particles with
+    # log L = -inf, i.e. zero weight at every temperature - a valid input for every schedule option
+    for j, extra in enumerate(({}, {"adaptive": False, "n_steps": 4}, {"min_step": 0.2}, {"max_n_steps": 3},
+                               {"target_efficiency": (0.2, 0.8), "target_efficiency_rate": 2.0})):
+        out.append({"seed": 200 + j, "n_samples": 20, "dims": 2, "like_width": 0.6, "kernel_steps": 2, "sampler": "minipcn_smc",
+                    "like_cut": 0.4, "mode": "hard_cut", **extra})
     return out
 
 
